@@ -665,16 +665,23 @@ Lemma named_as_underlying m t :
   /\ (forall x, trunc (TNamed m t) x = trunc t x) /\ arrow_of (TNamed m t) = arrow_of t.
 Proof. intro H. repeat split; try reflexivity. intro x. cbn [enc]. now rewrite H. Qed.
 
-(* what the serializer refuses today although the schema derivation and the
-   decoder accept it: a named integer / float / bool, a named []byte in a binary column *)
-Lemma named_kind_refused m :
-  (forall g a z, enc (TNamed m (TInt g a)) (GInt z) = None)
-  /\ (forall b, enc (TNamed m TBool) (GBool b) = None)
-  /\ (forall is64 b, enc (TNamed m (TFlt is64)) (GFlt b) = None)
-  /\ (forall np b, enc (TNamed m (TBin BBin)) (GBytes np b) = None)
-  /\ val_ok (TNamed m (TInt I32 I32)) (GInt 5) = true
-  /\ dec (TNamed m (TInt I32 I32)) (WInt 5) = Some (GInt 5).
-Proof. repeat split; reflexivity. Qed.
+(* repaired by d741a8f: before it the serializer refused every value of a named
+   integer / float / bool and of a named []byte in a binary column, although the
+   schema derivation and the decoder accepted the type; a named time / duration
+   field was written and then could not be decoded *)
+Lemma named_kind_refused_legacy m :
+  (forall g a z, enc_named_legacy (TInt g a) (GInt z) = None)
+  /\ (forall b, enc_named_legacy TBool (GBool b) = None)
+  /\ (forall is64 b, enc_named_legacy (TFlt is64) (GFlt b) = None)
+  /\ (forall np b, enc_named_legacy (TBin BBin) (GBytes np b) = None)
+  /\ (forall w, dec_named_legacy TDur w = None)
+  /\ (ty_ok (TNamed m (TInt I32 I32)) = true /\ val_ok (TNamed m (TInt I32 I32)) (GInt 5) = true
+      /\ enc_named_legacy (TInt I32 I32) (GInt 5) = None
+      /\ obind (dec (TNamed m (TInt I32 I32))) (enc (TNamed m (TInt I32 I32)) (GInt 5)) = Some (GInt 5))
+  /\ (val_ok (TNamed m TDur) (GDur 7000) = true
+      /\ obind (dec_named_legacy TDur) (enc_named_legacy TDur (GDur 7000)) = None
+      /\ obind (dec (TNamed m TDur)) (enc (TNamed m TDur) (GDur 7000)) = Some (GDur 7000)).
+Proof. repeat split; vm_compute; reflexivity. Qed.
 
 (* ---- the two defects repaired by 6a47532 / 98f5cb3, with the old behaviour ----------- *)
 Definition map_null_ty := TMap (TStr SUtf8) (TPtr (TInt I64 I64)).
